@@ -53,6 +53,7 @@ fn reverify<const N: usize>(seed: u64) {
 
 fn unit<const N: usize>(seed: u64) {
     reverify::<N>(seed);
+    invalid_wire_elements::<N>(seed);
     commitment_proof::<G1Projective, N>(seed);
     commitment_proof::<G2Projective, N>(seed);
     request_proof::<N>(seed);
@@ -333,4 +334,38 @@ fn signature_proof<const N: usize>(seed: u64) {
         unique_under(&format!("C11 {}: accepted under two challenges => equal (C != 0)", tag), "C11 signature-proof-challenge-binding", &eng::hyps(), Some(atom_scalar(&s.at, "commitment_proof.commitment")), s.c.to_scalar(), c2.to_scalar());
         eng::path_done();
     }
+}
+
+/// every proof type on the wire with one element replaced by an invalid encoding (non-canonical scalar, point outside the
+/// prime-order group): the verifier must never get to see it
+fn invalid_wire_elements<const N: usize>(seed: u64) {
+    sx::begin(vec![], DrawMode::NonDegenerate, seed);
+    let mut rng = SeedRng::new(seed);
+    let kp = KeyPair::<N>::new(&mut rng);
+    let c = sym_challenge("c");
+    let m: [Scalar; N] = sym_scalars("m");
+    let mut report = |ty: String, acc: Vec<String>| {
+        eng::ctx(|cx| cx.obligations.push(eng::ObRecord { name: format!("C11 {}: every atom replaced by an invalid encoding is refused at decode time", ty), kind: "ENUM", verdict: if acc.is_empty() { "held".into() } else { "violated".into() }, answer: "structural".into(), ms: 0.0, bytes: 0, nvars: 0, nasserts: 0, cross: vec![] }));
+        if !acc.is_empty() {
+            eng::finding(&format!("C11 invalid-encoding-reaches-verifier {}", ty), &format!("{}: an out-of-group / non-canonical encoding of {:?} decodes and would be handed to the verifier", ty, acc), None, json!({"kind": "model"}));
+        }
+    };
+    {
+        let params = PedersenParameters::<G1Projective, N>::new(&mut rng);
+        let p = CommitmentProofBuilder::<G1Projective, N>::generate_proof_commitments(&mut rng, Message::new(m), &[None; N], &params).generate_proof_response(c);
+        let l = atoms::layout(&p);
+        report(format!("CommitmentProof<G1,{}>", N), invalid_encodings_accepted::<CommitmentProof<G1Projective, N>>(&l.bytes, &atoms::atoms_of_layout(&l)));
+        let params = PedersenParameters::<G2Projective, N>::new(&mut rng);
+        let p = CommitmentProofBuilder::<G2Projective, N>::generate_proof_commitments(&mut rng, Message::new(m), &[None; N], &params).generate_proof_response(c);
+        let l = atoms::layout(&p);
+        report(format!("CommitmentProof<G2,{}>", N), invalid_encodings_accepted::<CommitmentProof<G2Projective, N>>(&l.bytes, &atoms::atoms_of_layout(&l)));
+    }
+    let p = SignatureRequestProofBuilder::<N>::generate_proof_commitments(&mut rng, Message::new(m), &[None; N], kp.public_key()).generate_proof_response(c);
+    let l = atoms::layout(&p);
+    report(format!("SignatureRequestProof<{}>", N), invalid_encodings_accepted::<SignatureRequestProof<N>>(&l.bytes, &atoms::atoms_of_layout(&l)));
+    let sig = Message::new(m).sign(&mut rng, &kp);
+    let p = SignatureProofBuilder::<N>::generate_proof_commitments(&mut rng, Message::new(m), sig, &[None; N], kp.public_key()).generate_proof_response(c);
+    let l = atoms::layout(&p);
+    report(format!("SignatureProof<{}>", N), invalid_encodings_accepted::<SignatureProof<N>>(&l.bytes, &atoms::atoms_of_layout(&l)));
+    eng::path_done();
 }
